@@ -8,7 +8,7 @@ of one kind, a retry after a refused connection.  A history case (JSON, replayab
                                          shape: plain | init (own __init__) | tuple (_EXEMPT_ERRORS a tuple) | sub:<profile>
                                          (subclass of a shipped profile, list = the profile's + pats)
     pool    : [ dict ]                   the caller's dictionaries; a value {"@cls": i} stands for classes[i]
-    steps   : [ {route, dp, mp, np, ep, timeout, fail} ]
+    steps   : [ {route, dp, mp, np, ep, timeout, fail [, over]} ]   (over: a by-hand Manager over the session of the manager of that earlier step)
                                          route: direct | connect | connect_ssh | connect_tls | connect_uds
                                          dp/mp/np/ep: index into pool or None (argument not passed)
                                          timeout: the `timeout=` keyword of the connect (or None); fail: session.connect()
@@ -115,6 +115,7 @@ def run(case, cell):
     ids0 = [idents(p) for p in pool]
     csnap0 = [snap(c, classes) for c in classes]
     state = {'fail': False}
+    made = {}                               # step index -> manager (for `over`: a second manager over the same session)
 
     def server(msg):
         mid = parse_request(msg)[0]
@@ -136,7 +137,9 @@ def run(case, cell):
             try:
                 if st['route'] == 'direct':
                     dh = manager.make_device_handler(arg['dp'], user_of(arg['ep']))
-                    s = pt.cls(dh)
+                    over = st.get('over')
+                    # `over`: the application builds another Manager over the SESSION of an earlier one, with its own handler
+                    s = made[over]._session if over is not None and made.get(over) is not None else pt.cls(dh)
                     kw = arg['mp'] if arg['mp'] is not None else {}              # unpacked (read) by the caller itself
                     if arg['ep'] is not None and 'raise_mode' in arg['ep']:
                         ev.manager = manager.Manager(s, dh, raise_mode=arg['ep']['raise_mode'], **kw)
@@ -151,6 +154,7 @@ def run(case, cell):
             except Exception as e:                                    # noqa: the history goes on, as a retry loop does
                 ev.raised = [type(e).__name__, str(e)[:160]]
             state['fail'] = False
+            made[k] = ev.manager
             ev.after = [snap(p, classes) for p in pool]
             ids_a = [idents(p) for p in pool]
             ev.before = before
